@@ -87,7 +87,9 @@ def exec_program(src, d, name='p', cc_list=('gcc',), sanitize=True):
     exe = os.path.join(d, name + '.cproc.exe')
     ok, diag = cc([cfile], exe, sanitize=sanitize)
     if not ok:
-        raise RuntimeError('il2c output does not compile: ' + diag[-2000:])
+        from .runner import SubjectFailure
+        raise SubjectFailure('il-untranslatable/%s' % name, 'the IL emitted for a program of the %s stream translates to C that does not compile (malformed IL): %s' % (name, diag[-600:]),
+                             files={'input.c': src if isinstance(src, bytes) else src.encode(), 'diagnostics.txt': diag.encode()}, cmd='$CPROC_QBE input.c')
     return run(exe)
 
 
